@@ -4,9 +4,10 @@
     spatial dim and only at the one vector the code normalises there: column [dim] of the parent's affine.
     [C05img_merge_split]: splitting a merged image returns the inputs' voxels, in order.
     Model: Wrapper/Model.v; vocabulary: Wrapper/Spec.v. *)
-From Coq Require Import List Bool Arith ZArith QArith Lia.
-From DV Require Import Common.Res Ext.Model Orient.Model Wrapper.Model Wrapper.Spec Wrapper.Corr
-     Wrapper.ProofsRT Wrapper.ProofsUnit.
+From Coq Require Import List Bool Arith ZArith NArith QArith Lia.
+From DV Require Import Common.Res Common.Str Common.Jv Ext.Types Ext.Model Ext.Spec Ext.ProofsSimplifyCanon Ext.ProofsRoundtrip
+     Ext.ProofsRoundtripEx Orient.Model Wrapper.Model Wrapper.Spec Wrapper.Corr
+     Wrapper.ProofsRT Wrapper.ProofsUnit Wrapper.ProofsRTW.
 Import ListNotations.
 Local Open Scope nat_scope.
 
@@ -23,7 +24,8 @@ Theorem C05img_split_merge :
                    aget (iarr r) idx = aget (iarr im) (pad_zeros (length (ishape im)) idx)) /\
       (forall i k, i < 4 -> k < 4 -> (mentry (iaff r) i k == mentry (iaff im) i k)%Q) /\
       islice r = islice im /\
-      (no_trailing_one (ishape im) dim -> ishape r = ishape im /\ idata r = idata im).
+      (no_trailing_one (ishape im) dim -> ishape r = ishape im /\ idata r = idata im) /\
+      (reduced (iaff im) -> iaff r = iaff im).
 Proof. exact split_merge_law. Qed.
 
 Theorem C05img_merge_split :
@@ -38,28 +40,87 @@ Theorem C05img_merge_split :
         (3 <= dim -> iaff p = iaff r).
 Proof. exact merge_split_law. Qed.
 
+(** WRAPPER level: [w.split(dim)] followed by [from_sequence(pieces, dim)] returns the wrapper itself -- same shape,
+    voxel list, affine (the same matrix, not just the same rationals: the parent's entries are reduced fractions and
+    the merged column is stored reduced), header slice dim, and an extension equal to the parent's as an unordered
+    map ([ext_equiv]); the result is again consistent, in the domain and canonical, so the statement iterates.
+    This composes [C05img_split_merge] with the extension-level [C05_split_merge], whose affine ARGUMENT must be
+    the parent's affine itself. *)
+Theorem C05w_split_merge :
+  forall (V : Type) (veqb : V -> V -> bool) (vnone : V), (forall a b, reflect (a = b) (veqb a b)) ->
+  forall (unitv : vec -> vec) (im : img) (e : ext V) (dim : nat) (ws : list (wrapper V)),
+    wf_img im -> reduced (iaff im) -> consistent (im, e) ->
+    rt_dom e -> canonical vnone e -> hdr_tight (hdr_of e) -> rt_axis e dim ->
+    (dim < 3 -> near_zero (col3 (iaff im) dim) = false /\ unit_ok_at unitv (col3 (iaff im) dim)) ->
+    split_w veqb vnone (im, e) (Some dim) = Ok ws ->
+    exists r e', from_sequence_w veqb vnone unitv ws (Some dim) = Ok (r, e') /\
+      ishape r = ishape im /\ idata r = idata im /\ iaff r = iaff im /\ islice r = islice im /\
+      ext_equiv e e' /\ consistent (r, e') /\ rt_dom e' /\ canonical vnone e'.
+Proof. exact @split_merge_w. Qed.
+
 (* ------------------------------------------------------------------------------------------ non-vacuity *)
 
 Definition exC : mat := [[3 # 2; -4 # 1; 0; 10]; [2 # 1; 3 # 1; 0; -8 # 1]; [0; 0; 5 # 2; 3]; [0; 0; 0; 1]]%Q.
 Definition exI : img := mk_img [3; 2; 1] [1; 2; 3; 4; 5; 6]%Z exC (Some 0).
 
-(** the hypotheses hold for the oblique image [exI] along dim 0 (column (1.5, 2, 0), norm 2.5) with the exact
-    normalisation, and the round trip is the identity *)
-Example C05img_split_merge_nonvacuous :
-  wf_img exI /\ near_zero (col3 (iaff exI) 0) = false /\ unit_ok_at unit_exact (col3 (iaff exI) 0) /\
-  no_trailing_one (ishape exI) 0 /\
-  exists ps r, split_img_at exI 0 = Ok ps /\ length ps = 3 /\ from_sequence_img unit_exact ps (Some 0) = Ok r /\
-               ishape r = ishape exI /\ idata r = idata exI /\ map (map Qred) (iaff r) = iaff exI.
+Lemma reduced_b (A : mat) : forallb (forallb (fun q => Qeq_bool (Qred q) q && Z.eqb (Qnum (Qred q)) (Qnum q) && Pos.eqb (Qden (Qred q)) (Qden q))) A = true -> reduced A.
 Proof.
-  split; [split; reflexivity|]. split; [reflexivity|]. split; [apply unit_exact_ok_at; vm_compute; reflexivity|].
-  split; [left; cbn; lia|]. eexists. eexists. split; [vm_compute; reflexivity|]. split; [reflexivity|].
+  intros H. apply Forall_forall. intros r Hr. apply Forall_forall. intros q Hq.
+  rewrite forallb_forall in H. specialize (H r Hr). rewrite forallb_forall in H. specialize (H q Hq).
+  apply andb_prop in H as [H H3]. apply andb_prop in H as [_ H2]. apply Z.eqb_eq in H2. apply Pos.eqb_eq in H3.
+  destruct (Qred q) as [a b], q as [c d]. cbn [Qnum Qden] in *. congruence.
+Qed.
+
+(** every hypothesis of [C05img_split_merge] for the oblique image [exI] along dim 0 (column (1.5, 2, 0), norm 2.5)
+    with the exact normalisation, and the round trip is the identity (the affine as the same matrix) *)
+Example C05img_split_merge_nonvacuous :
+  wf_img exI /\ length (ishape exI) <= 5 /\ 2 <= nth 0 (ishape exI) 0 /\
+  near_zero (col3 (iaff exI) 0) = false /\ unit_ok_at unit_exact (col3 (iaff exI) 0) /\
+  no_trailing_one (ishape exI) 0 /\ reduced (iaff exI) /\
+  exists ps r, split_img_at exI 0 = Ok ps /\ length ps = 3 /\ from_sequence_img unit_exact ps (Some 0) = Ok r /\
+               ishape r = ishape exI /\ idata r = idata exI /\ iaff r = iaff exI.
+Proof.
+  split; [split; reflexivity|]. split; [cbn; lia|]. split; [cbn; lia|]. split; [reflexivity|].
+  split; [apply unit_exact_ok_at; vm_compute; reflexivity|].
+  split; [left; cbn; lia|]. split; [apply reduced_b; vm_compute; reflexivity|].
+  eexists. eexists. split; [vm_compute; reflexivity|]. split; [reflexivity|].
   split; [vm_compute; reflexivity|]. repeat split.
 Qed.
 
-(** two (2,1,1) inputs merged along a new 5th axis and split again *)
+(** every hypothesis of [C05img_merge_split]: two (2,1,1) inputs merged along a new 5th axis and split again *)
 Example C05img_merge_split_nonvacuous :
+  let a := mk_img [2; 1; 1] [1; 2]%Z exC None in
+  let b := mk_img [2; 1; 1] [3; 4]%Z exC None in
+  uniform [a; b] (ishape a) /\ 3 <= length (ishape a) /\ resolve_merge_dim (ishape a) (Some 4) = Ok 4 /\
   exists r ps,
-    from_sequence_img unit_exact [mk_img [2; 1; 1] [1; 2]%Z exC None; mk_img [2; 1; 1] [3; 4]%Z exC None] (Some 4) = Ok r /\
+    from_sequence_img unit_exact [a; b] (Some 4) = Ok r /\
     ishape r = [2; 1; 1; 1; 2] /\ idata r = [1; 3; 2; 4]%Z /\
     split_img r (Some 4) = Ok ps /\ map idata ps = [[1; 2]; [3; 4]]%Z /\ map ishape ps = [[2; 1; 1]; [2; 1; 1]].
-Proof. eexists. eexists. split; [vm_compute; reflexivity|]. split; [reflexivity|]. split; [reflexivity|]. split; [vm_compute; reflexivity|]. split; reflexivity. Qed.
+Proof.
+  cbv zeta. split.
+  - intros im [<-|[<-|[]]]; (split; [reflexivity|]); split; reflexivity.
+  - split; [cbn; lia|]. split; [reflexivity|].
+    eexists. eexists. split; [vm_compute; reflexivity|]. split; [reflexivity|]. split; [reflexivity|].
+    split; [vm_compute; reflexivity|]. split; reflexivity.
+Qed.
+
+(** every hypothesis of [C05w_split_merge]: the 5-D extension [c05_ex] (one key per class) on its own 48-voxel image,
+    along the slice axis 1 (a spatial axis: column (0,0,-1) is normalised) and along time; the round trip returns the
+    wrapper itself *)
+Definition exR : img := mk_img [2; 2; 2; 3; 2] (map Z.of_nat (seq 0 48)) c05_aff (Some 1).
+
+Example C05w_split_merge_nonvacuous :
+  wf_img exR /\ reduced (iaff exR) /\ consistent (exR, c05_ex) /\
+  rt_dom c05_ex /\ canonical JNull c05_ex /\ hdr_tight (hdr_of c05_ex) /\ rt_axis c05_ex 1 /\ rt_axis c05_ex 3 /\
+  near_zero (col3 (iaff exR) 1) = false /\ unit_ok_at unit_exact (col3 (iaff exR) 1) /\
+  (exists ws, split_w jv_eqb JNull (exR, c05_ex) (Some 1) = Ok ws /\ length ws = 2 /\
+              from_sequence_w jv_eqb JNull unit_exact ws (Some 1) = Ok (exR, c05_ex)) /\
+  (exists ws, split_w jv_eqb JNull (exR, c05_ex) (Some 3) = Ok ws /\ length ws = 3 /\
+              from_sequence_w jv_eqb JNull unit_exact ws (Some 3) = Ok (exR, c05_ex)).
+Proof.
+  split; [split; reflexivity|]. split; [apply reduced_b; vm_compute; reflexivity|]. split; [repeat split|].
+  split; [exact c05_ex_dom|]. split; [exact c05_ex_canonical|]. split; [exact c05_ex_tight|].
+  split; [split; [left; reflexivity | split; cbn; lia]|]. split; [split; [right; left; reflexivity | split; cbn; lia]|].
+  split; [reflexivity|]. split; [apply unit_exact_ok_at; vm_compute; reflexivity|].
+  split; eexists; (split; [vm_compute; reflexivity|]); split; [reflexivity | vm_compute; reflexivity | reflexivity | vm_compute; reflexivity].
+Qed.
